@@ -3,10 +3,10 @@ package main
 // Verification of one function against its contract; loop cutting; frames.
 
 import (
-	"strconv"
 	"fmt"
 	"go/types"
 	"sort"
+	"strconv"
 	"strings"
 
 	"golang.org/x/tools/go/ssa"
